@@ -4,7 +4,7 @@ import itertools
 import numpy as np
 
 from . import _rfa as R
-from .. import tol
+from .. import callform, tol
 from ..core import fp_watch
 from ..models import domain_ops as D
 from ..models import integrate as I
@@ -15,14 +15,14 @@ LEVEL_TEXT = ("Shadow-model monitor of the real Weaver: an independent model of 
               "in lock-step with the real object and compared after EVERY operation of a history (working == "
               "reference bit for bit while not reshaped; both equal to the model: bit for bit for shift / scale / "
               "truncate / append, to rounding for normalise / repeat; reshaping operations must leave the reference "
-              "bit-identical). Exhaustive over all histories of length <= 3 on a 24-letter alphabet (3 base series in "
+              "bit-identical). Exhaustive over all histories of length <= 3 on a 26-letter alphabet (3 base series in "
               "the thorough tier), random histories up to length 8 interleaved with reshaping operations, each "
               "followed by the recreate + match pipeline judged against the shadow reference, and a commutation pair.")
 LEVEL_NOTE = ("Trusts the 90-line docstring-derived model (models/domain_ops.py) which uses the same IEEE operations "
               "on its own copy of the data; after a rounding-level comparison the model is re-synchronised to the "
               "verified real state so that later exact comparisons stay meaningful.")
 TECHNIQUE = "shadow-model state monitor on the real Weaver after every step of enumerated and random operation histories"
-RULE = ("exhaustive: all sequences of length 0..3 over 24 letters (10 domain operations x 2-3 argument choices) per "
+RULE = ("exhaustive: all sequences of length 0..3 over 26 letters (10 domain operations x 2-5 argument choices, truncation bounds as ratios, absolute values and mixed) per "
         "base series; random: length 0..8 with random admissible arguments, 35% interleaved reshaping operations, then "
         "random strategy / n / rule pipeline and a shift/scale commutation pair. non-trivial: history contains >= 1 "
         "domain operation that changed the series; distinct by (base, letter sequence) or case index.")
@@ -42,6 +42,7 @@ ALPHABET = [
     ("repeat", (2,)), ("repeat", (3,)),
     ("truncate_by_value", (0.2, 0.8, True, True)), ("truncate_by_value", (0.0, 0.55, True, True)),
     ("truncate_by_value", (0.3, 1.0, True, True)),
+    ("truncate_by_value", (0.1, 6.0, True, False)), ("truncate_by_value", (1.0, 0.9, False, True)),   # mixed bounds
     ("truncate_by_index", (1, None)), ("truncate_by_index", (0, 4)), ("truncate_by_index", (2, 6)),
 ]
 BASES = [
@@ -66,8 +67,9 @@ def plan(tier, seed):
 
 
 def exhaustive(tier, merged):
-    return ("all operation sequences of length 0..3 over the 24-letter alphabet (14425 per base series) on %d base "
-            "series%s" % (1 if tier == "quick" else 4, " (+ 1/8 of them on the narrow-integer base)" if tier == "quick" else ""))
+    L = len(ALPHABET)
+    return ("all operation sequences of length 0..3 over the %d-letter alphabet (%d per base series) on %d base "
+            "series%s" % (L, 1 + L + L * L + L ** 3, 1 if tier == "quick" else 4, " (+ 1/8 of them on the narrow-integer base)" if tier == "quick" else ""))
 
 
 def same_bits(a, b):
@@ -99,8 +101,15 @@ class Shadow:
             self.exact = False
 
 
-def call(wv, op, args):
-    getattr(wv, op)(*args)
+def call(wv, op, args, rng=None):
+    """without an rng (enumerated histories) everything is passed positionally in the documented order; with one the
+    call form is drawn: optional parameters by keyword or positionally, mandatory ones by position or by name"""
+    if rng is None:
+        getattr(wv, op)(*args)
+        return
+    mand, opt = callform.DOC["Weaver." + op]
+    kw = {k: v for (k, _d), v in zip(opt, args[len(mand):])}
+    callform.call(rng, getattr(wv, op), "Weaver." + op, list(args[:len(mand)]), kw, p_pos=0.4, p_kw=0.2)
 
 
 def check_state(ctx, cid, wv, sh, op, args, hist):
@@ -200,7 +209,7 @@ def random_domain_args(rng, op, x, y):
     if op == "truncate_by_value":
         i = int(rng.integers(0, n - 1))
         j = int(rng.integers(i + 1, n))
-        t = int(rng.integers(0, 4))
+        t = int(rng.integers(0, 5))
         if t == 0:      # exactly on samples
             return (float(x[i]), float(x[j]), False, False)
         if t == 1:      # strictly inside gaps
@@ -213,7 +222,15 @@ def random_domain_args(rng, op, x, y):
             return (float(x[0]) - 1.0, float(x[j]), False, False) if rng.integers(0, 2) else \
                 (float(x[i]), float(x[-1]) + 1.0, False, False)
         a, b = sorted([float(rng.choice([0.0, 0.25, 0.5, 0.125])), float(rng.choice([0.5, 0.75, 1.0, 0.625]))])
-        return (a, b, True, True) if a < b else (0.0, 1.0, True, True)
+        if not a < b:
+            a, b = 0.0, 1.0
+        span = float(x[-1]) - float(x[0])
+        mix = int(rng.integers(0, 3))
+        if mix == 1 and float(x[0]) + a * span < float(x[j]):      # left as a ratio, right as an absolute value
+            return (a, float(x[j]), True, False)
+        if mix == 2 and float(x[i]) < float(x[0]) + b * span:      # left absolute, right as a ratio
+            return (float(x[i]), b, False, True)
+        return (a, b, True, True)
     if op == "truncate_by_index":
         start = int(rng.integers(0, max(1, n - 2)))
         stop = None if rng.integers(0, 3) == 0 else int(rng.integers(start + 2, n + 1))
@@ -262,8 +279,9 @@ def do_reshape(rng, wv, which, meta):
     raise KeyError(which)
 
 
-def judge_pipeline(ctx, cid, wv, ref_x, ref_y, strat, n, rule, hist):
-    """C02's oracle against the shadow reference"""
+def judge_pipeline(ctx, cid, wv, ref_x, ref_y, strat, n, rule, hist, ys0=None):
+    """C02's oracle against the shadow reference; as there, the terms entering the equation are the result, the target
+    and the unmatched input the stretch started from (its rounding is what the matched mean inherits)"""
     xs, res = wv.get()
     m = len(ref_x)
     bad = R.well_formed(xs, res, m, n)
@@ -271,6 +289,7 @@ def judge_pipeline(ctx, cid, wv, ref_x, ref_y, strat, n, rule, hist):
         ctx.violation("pipeline_malformed", cid, {"problem": bad, "history": hist})
         return False
     xl, rl = [float(v) for v in xs], [float(v) for v in res]
+    y0l = [float(v) for v in ys0] if ys0 is not None and len(ys0) == len(rl) else None
     rel = tol.rel_for(xs)
     gmag = max(float(np.max(np.abs(res))), float(np.max(np.abs(ref_y))))
     for k in range(m - 1):
@@ -278,7 +297,8 @@ def judge_pipeline(ctx, cid, wv, ref_x, ref_y, strat, n, rule, hist):
         got = I.integ(xl, rl, k * n, (k + 1) * n, rule)
         want = float(ref_y[k]) * width
         sc = I.scale(xl, rl, k * n, (k + 1) * n, rule) + abs(want) + 1e-3 * gmag * width + \
-            (abs(float(ref_y[k])) + abs(float(ref_y[k + 1]))) * width
+            (abs(float(ref_y[k])) + abs(float(ref_y[k + 1]))) * width + \
+            (I.scale(xl, y0l, k * n, (k + 1) * n, rule) if y0l else 0.0)
         if not tol.close(got, want, sc, rel):
             ctx.violation("pipeline_interval_mean_vs_transformed_average", cid,
                           {"interval": k, "mean_got": got / width, "average(model)": float(ref_y[k]),
@@ -341,7 +361,7 @@ def run_random_case(ctx, kind_, idx):
                     st["grid_ok"] = st["grid_ok"] and op not in ("truncate_by_value", "truncate_by_index", "repeat",
                                                                   "append_one_sample")
                 hist.append([op, list(args)])
-                call(wv, op, args)
+                call(wv, op, args, rng)
                 before = (sh.x, sh.y)
                 if sh.reshaped:
                     # outside the first clause's quantifier: not judged, the model just follows the real reference
@@ -365,10 +385,11 @@ def run_random_case(ctx, kind_, idx):
                 wv_b = copy.deepcopy(wv)
                 hist2 = hist + [["recreate", n, strat, kw], ["match", rule]]
                 wv.recreate_from_average(n, rfa_class=R.cls(strat), **kw)
+                ys0 = np.array(wv.get()[1], dtype=float).copy()       # what the stretch starts from
                 wv.integral_match(target_function_integral_method=rule)
                 ctx.monitor("c08:pipeline")
                 ctx.count("pipeline:%s" % strat)
-                if not judge_pipeline(ctx, cid, wv, sh.x, sh.y, strat, n, rule, hist2):
+                if not judge_pipeline(ctx, cid, wv, sh.x, sh.y, strat, n, rule, hist2, ys0):
                     return
                 ra = wv.get_reference()
                 if not (np.array_equal(ra[0], sh.x) and np.array_equal(ra[1], sh.y)):
